@@ -8,6 +8,7 @@
   the handler skeleton regenerated from the source.
 -/
 import Mfi.Model.Risk
+import Mfi.Model.Ix
 import Mfi.Lemmas.FxL
 import Mfi.Lemmas.ResL
 import Mfi.Lemmas.SkelL
@@ -236,6 +237,51 @@ theorem liquidate_refuses_flashloan :
   decide
 
 end tables
+
+/-! ### the whole accounting block of the real instruction (`Mfi/Model/Ix.lean`, diffed bit for bit by the `liqix` family) -/
+
+/-- **liquidate_uses_the_amounts**: an accepted liquidation (a) prices with positive prices only, (b) evaluates the
+    amounts block — to which `amounts_spec` / `amount_bounds` apply — with each bank's BALANCE decimals on the banks as
+    accrued to the current time, (c) moves exactly `liquidator` onto the liquidator's debt-bank position, `final` off
+    the liquidatee's, the seized amount between the two collateral positions, and (d) sends the whole tokens of the
+    difference to the insurance vault and books its fraction as outstanding insurance fees. -/
+theorem liquidate_uses_the_amounts {irA irL : Interest.IrCalc} {now : Int} {a0 l0 : Bank.Bank}
+    {q1 q3 : Option Bank.Balance} {x2 x4 : Bank.Balance} {amt pa pl : Int} {o : Ix.LiqOut}
+    (h : Ix.liquidate irA irL now a0 l0 q1 x2 q3 x4 amt pa pl = .ok o) :
+    ∃ a1 l1 amts r1 r2 r3 r4,
+      Bank.accrueInterest a0 irA now = .ok a1 ∧ Bank.accrueInterest l0 irL now = .ok l1 ∧ 0 < pa ∧ 0 < pl ∧
+      liquidationAmounts amt pa pl (Bank.balanceDecimals a1) (Bank.balanceDecimals l1) = .ok amts ∧
+      Bank.decreaseBalance l1 (q1.getD (Ix.freshBalance l1 now)) now amts.liquidator .bypassBorrowLimit = .ok r1 ∧
+      Bank.decreaseBalance a1 x2 now (ofInt amt) .bypassBorrowLimit = .ok r2 ∧
+      Bank.increaseBalance r2.1 (q3.getD (Ix.freshBalance r2.1 now)) now (ofInt amt) .bypassDepositLimit = .ok r3 ∧
+      Bank.increaseBalance r1.1 x4 now amts.final .repayOnly = .ok r4 ∧
+      o.insuranceTokens = amts.feeWhole ∧ o.liabBank.feeI = r4.1.feeI + amts.feeFrac ∧
+      o.lqLiab = r1.2 ∧ o.leAsset = r2.2 ∧ o.lqAsset = r3.2 ∧ o.leLiab = r4.2 := by
+  unfold Ix.liquidate at h
+  obtain ⟨a1, ha, h⟩ := Res.bind_ok h
+  obtain ⟨l1, hl, h⟩ := Res.bind_ok h
+  obtain ⟨_, hpa, h⟩ := Res.bind_ok h
+  obtain ⟨_, hpl, h⟩ := Res.bind_ok h
+  obtain ⟨amts, hamts, h⟩ := Res.bind_ok h
+  obtain ⟨r1, h1, h⟩ := Res.bind_ok h
+  obtain ⟨pre, _, h⟩ := Res.bind_ok h
+  obtain ⟨_, _, h⟩ := Res.bind_ok h
+  obtain ⟨r2, h2, h⟩ := Res.bind_ok h
+  obtain ⟨r3, h3, h⟩ := Res.bind_ok h
+  obtain ⟨r4, h4, h⟩ := Res.bind_ok h
+  obtain ⟨f, hf, h⟩ := Res.bind_ok h
+  injection h with h
+  subst h
+  have e1 : 0 < pa := by
+    unfold Bank.chk at hpa; split at hpa
+    · rename_i hc; simpa using hc
+    · cases hpa
+  have e2 : 0 < pl := by
+    unfold Bank.chk at hpl; split at hpl
+    · rename_i hc; simpa using hc
+    · cases hpl
+  have e3 := (add?_some (Bank.math_ok hf)).1
+  exact ⟨a1, l1, amts, r1, r2, r3, r4, ha, hl, e1, e2, hamts, h1, h2, h3, h4, rfl, e3, rfl, rfl, rfl, rfl⟩
 
 /-! ### non-vacuity -/
 
